@@ -15,6 +15,7 @@ def run(ctx):
         "a linear declaration raises ValueError before the base constructor runs; wrapping deep-copies the four "
         "containers. __getitem__: the slice branch builds a plain SeqRecord carrying the library's sub-sequence, never "
         "claims circular topology, and owns deep copies."
+        " The slice rule is also evaluated on a receiver whose topology is 'circular' in any letter case; copy.deepcopy may fail (then the record is refused, never shallow-copied); K11.total: membership is decided on text, not with Bio.Seq's ASCII-only `in`; no-derived-state as for C13."
     )
     run_kernels(ctx, ["K11"], "C15")
     ctx.guard(add_guard_rule, ctx, "C15.add-guard")
